@@ -31,7 +31,7 @@ const NEAR_KEYS: &[&str] = &[
     "\"a long dictionary key with a shared prefix, variant D\"",
     "\"a long dictionary key with a shared prefix\"",
     "\"Key\"", "\"key\"", "\"KEY\"", "\"key \"", "\" key\"", "\"k\u{e9}y\"", "\"ke\u{301}y\"",
-    "\"1\"", "\"01\"", "\"1.0\"", "\"true\"", "true", "\"null\"", "null", "\"mysterious\"", "mysterious",
+    "\"1\"", "\"01\"", "\"1.0\"", "\"9\"", "\"10\"", "\"1a\"", "\"2\"", "\"10a\"", "\"-1\"", "\"1e1\"", "\"true\"", "true", "\"null\"", "null", "\"mysterious\"", "mysterious",
 ];
 const STR_VALS: &[&str] = &["\"1\"", "\"2\"", "\"x\"", "\"ÿ\"", "\"v v\"", "\"\"", "\"end\""];
 const OTHER_VALS: &[&str] = &["7", "true", "nothing", "mysterious", "3.5", "-2"];
@@ -54,7 +54,7 @@ pub fn gen_dict_program(t: &mut Tape) -> DictProgram {
     for a in 0..narr {
         // key family: the plain pool; keys that collide under truncation,
         // case folding or trimming; or a big dictionary
-        let family = t.weighted(&[6, 2, 1]);
+        let family = t.weighted(&[6, 2, 1, 1]);
         let mut keys: Vec<String> = Vec::new();
         match family {
             0 => {
@@ -71,6 +71,22 @@ pub fn gen_dict_program(t: &mut Tape) -> DictProgram {
                 let nkeys = 2 + t.draw(5) as usize;
                 for _ in 0..nkeys {
                     let k = NEAR_KEYS[t.draw(NEAR_KEYS.len() as u32) as usize].to_string();
+                    if !keys.contains(&k) {
+                        keys.push(k);
+                    }
+                }
+            }
+            3 => {
+                // string keys that look like numbers mixed with ones that do
+                // not: orders by value and by spelling disagree
+                features.push("numeric-looking keys");
+                const NUMERIC_MIX: &[&str] = &[
+                    "\"9\"", "\"10\"", "\"1a\"", "\"2\"", "\"10a\"", "\"-1\"", "\"1e1\"", "\"100\"",
+                    "\"09\"", "\"a1\"", "\"1.5\"", "\"x\"",
+                ];
+                let nkeys = 3 + t.draw(4) as usize;
+                for _ in 0..nkeys {
+                    let k = NUMERIC_MIX[t.draw(NUMERIC_MIX.len() as u32) as usize].to_string();
                     if !keys.contains(&k) {
                         keys.push(k);
                     }
@@ -137,6 +153,13 @@ pub fn gen_dict_program(t: &mut Tape) -> DictProgram {
         src.push_str("Dive takes Depth\nIf Depth is 0\nBuild Doom up\n\nPut Depth minus 1 into Deeper\nGive back Dive taking Deeper\n\n");
         src.push_str("Climb takes Depth\nIf Depth is 0\nGive back \"top\"\n\nPut Depth minus 1 into Deeper\nGive back Climb taking Deeper\n\n");
     }
+    // a function whose parameter list repeats two different names (an error
+    // whichever stage reports it; several candidates to name)
+    let has_dup = t.chance(1, 10);
+    if has_dup {
+        features.push("function with repeated parameter names");
+        src.push_str("Twice takes Ay, Bee, Ay, and Bee\nGive back Ay\n\n");
+    }
     let nops_at = t.pos();
     let nops = 2 + t.draw(7);
     for _ in 0..nops {
@@ -161,6 +184,7 @@ pub fn gen_dict_program(t: &mut Tape) -> DictProgram {
             1, // 14 undefined name (error names a variable)
             if has_dive { 4 } else { 0 }, // 15 deep recursion
             3, // 16 an equal dictionary built independently (other insertion order), compared
+            if has_dup { 4 } else { 0 }, // 17 call the function with repeated parameter names
         ];
         match t.weighted(&w) {
             0 => {
@@ -284,6 +308,7 @@ pub fn gen_dict_program(t: &mut Tape) -> DictProgram {
                     _ => src.push_str(&format!("Say Echo aint {}\n", name)),
                 }
             }
+            17 => src.push_str("Say Twice taking 1, 2, 3, 4\n"),
             _ => {
                 features.push("undefined name error");
                 src.push_str("Put 1 into One\nPut 2 into Two\nPut 3 into Three\nSay Phantom\n");
